@@ -14,6 +14,8 @@
    Other operations
      (a trailing 'z' makes the waiter end its own section with nsync_mu_unlock_without_wakeup)
      A / B   lock; a=1 (b=1); nsync_mu_unlock
+     a0 / b0 lock; a=0 (b=0); nsync_mu_unlock     (a condition made true may be made false again before the
+             woken waiter has run: the waiter then legitimately keeps waiting, the others must not be forgotten)
      Z / z   lock; nothing; unlock / unlock_without_wakeup
              (Sections that change a or b always end with nsync_mu_unlock: nsync documents
              nsync_mu_unlock_without_wakeup as usable "only at the end of critical sections [that]
@@ -87,7 +89,7 @@ static int mw_setup (const char *program) {
 			if (*p == 'N') { fresh = 1; p++; } else if (*p == 'x') p++;
 			if (*p == 'z') p++;
 			if (*p) return -1;
-		} else if (!strcmp (o, "Sr") || !strcmp (o, "Br")) {
+		} else if (!strcmp (o, "Sr") || !strcmp (o, "Br") || !strcmp (o, "a0") || !strcmp (o, "b0")) {
 		} else if (strlen (o) == 1 && strchr ("ABZzRVSNFG", o[0])) { if (o[0] == 'N') notifier = 1; }
 		else if (o[0] == '@' && o[1] >= '1' && o[1] <= '9' && o[2] == 0) ;
 		else return -1;
@@ -137,6 +139,9 @@ MC_ORACLE static void returned (int slot, int res) {
 /* write-section bookkeeping for the C06 obligation rule */
 MC_ORACLE static void sec_begin (void) { int me = mc_self (), v; for (v = 0; v < 2; v++) { began_true[me][v] = val[v] != 0; set_here[me][v] = 0; } }
 MC_ORACLE static void sec_set (int v) { set_here[mc_self ()][v] = 1; }
+/* the condition is false again: whatever obligation its earlier truth created is void, and sections that began
+   while it was true no longer count */
+MC_ORACLE static void sec_clear (int v) { int t; oblig[v] = 0; for (t = 0; t < MC_MAXF; t++) { began_true[t][v] = 0; set_here[t][v] = 0; } }
 MC_ORACLE static void sec_end (int with_wakeup) {
 	int me = mc_self (), v;
 	for (v = 0; v < 2; v++) {
@@ -193,6 +198,10 @@ static void mw_thread (int me) {
 				break;
 			}
 			wlock (); mc_point (); val[v] = 1; sec_set (v); wunlock (1);
+			break; }
+		case 'a': case 'b': {   /* "a0" / "b0" */
+			int v = (o[0] == 'b');
+			wlock (); mc_point (); val[v] = 0; sec_clear (v); wunlock (1);
 			break; }
 		case 'Z': wlock (); write_section (); wunlock (1); break;
 		case 'z': wlock (); write_section (); wunlock (0); break;
